@@ -195,7 +195,7 @@ def run(ctx: core.Ctx):
                                          + "INVARIANT EmitInv\nCHECK_DEADLOCK FALSE\n"), workers=16, timeout=3000)
     behs = [(b, 2) for b in g.emitted]
     # context objects created first and entered by a later step (after an assignment, inside another context, ...)
-    g2 = ctx.tlc("MC_Settings", write_cfg("Gen_Settings_deferred", base.format(nk=2, d=3, m=4 if q else 5, e="TRUE", ra="FALSE", df="only")
+    g2 = ctx.tlc("MC_Settings", write_cfg("Gen_Settings_deferred", base.format(nk=2, d=3 if q else 4, m=4, e="TRUE", ra="FALSE", df="only")
                                           + "INVARIANT EmitInv\nCHECK_DEADLOCK FALSE\n"), workers=16, timeout=3000)
     behs += [(b, 2) for b in g2.emitted if any(s["act"] == "EnterCreated" for s in b["steps"])]
     ctx.extra["behaviours_deferred_entry"] = sum(1 for b, _ in behs if any(s["act"] == "EnterCreated" for s in b["steps"]))
@@ -212,6 +212,7 @@ def run(ctx: core.Ctx):
     pairs = [(a, b) for a in REAL for b in REAL if a != b]
     tracer.install(fl)
     tracer.reset()
+    kept_items = []
     try:
         for bi, (beh, nk) in enumerate(behs):
             keymap = list(pairs[bi % len(pairs)]) if nk == 2 else REAL
@@ -228,6 +229,10 @@ def run(ctx: core.Ctx):
             ctx.case(("beh", bi), any(s["act"] in ("Exit", "Raise") for s in beh["steps"]))
             if bi % 9000 == 11:
                 ctx.sample({"behaviour": beh, "keymap": keymap})
+            if bi % 5000 == 4999:       # the recorded events are cut into traces as we go (every behaviour closes its contexts): memory stays bounded
+                chunk = [dict(e) for e in tracer.events() if e["act"].startswith("settings.")]
+                kept_items += split_traces(chunk, f"replay{bi}", limit=max(40, (400 if q else 4000) * 5000 // max(len(behs), 1) + 1), rng=rng)
+                tracer.reset()
         ctx.extra["behaviours_exhaustive"] = n_exh
         ctx.extra["behaviours_simulated_7_keys"] = len(behs) - n_exh
         # code -> spec: the events the tracer recorded while the behaviours were played (a seeded sample of them)
@@ -235,7 +240,9 @@ def run(ctx: core.Ctx):
     finally:
         tracer.uninstall()
         restore(fl, pal)
-    items = split_traces(evs, "replay", limit=400 if q else 4000, rng=rng)
+    items = kept_items + split_traces(evs, "replay", limit=400 if q else 4000, rng=rng)
+    if len(items) > (400 if q else 4000):
+        items = rng.sample(items, 400 if q else 4000)
     check_traces(ctx, items, "drivers")
     demonstrate_binding(ctx, items)
     if not q:
